@@ -1,6 +1,6 @@
 SPECIFICATION SpecAll
 CONSTANT Cfg <- MCCfg44t2
-CONSTANT MaxSteps = -1
+CONSTANT MaxSteps <- NoSteps
 INVARIANT Protocol
 INVARIANT MaskSound
 INVARIANT MidHasLegal
